@@ -42,6 +42,9 @@ def field_scenario(sid, field, n):
         content = h(b"[") + "+" + R(0x73) + "+" + h(b"]\nk=v\n")
     elif field == "cb":
         content = h(b"#") + "+" + R(0x63) + "+" + h(b"\nk=v\n")
+    elif field == "cb2":
+        # a comment block of several lines in which a later line is the long one
+        content = h(b"#first\n#") + "+" + R(0x63) + "+" + h(b"\n#last\nk=v\n")
     elif field == "ca":
         content = h(b"k=v #") + "+" + R(0x64) + "+" + h(b"\n")
     elif field == "cont":
@@ -158,7 +161,7 @@ def name_scenario(sid, kind, n):
 
 
 LENS_Q = [1, BUFSIZ - 2, BUFSIZ - 1, BUFSIZ, BUFSIZ + 1, BUFSIZ + 2, 2 * BUFSIZ, 65536]
-FIELDS = ["value", "key", "section", "cb", "ca", "cont", "line"]
+FIELDS = ["value", "key", "section", "cb", "cb2", "ca", "cont", "line"]
 
 
 def scenarios(tier, rng):
@@ -216,6 +219,12 @@ def oracle(s, lines):
             for e in exts:
                 if " v len=1 " not in e or " v " + summ(n, 0x6c) not in e:
                     return "value lines with a line of %d bytes come back as %r" % (n, e)
+        if f == "cb2":
+            blk = b"first\n" + b"c" * n + b"\nlast"
+            w = "len=%d fnv=%016x" % (len(blk), fnv(blk))
+            for i, e in enumerate(exts):
+                if " cb " + w not in e:
+                    return "comment block with a line of %d bytes comes back as %r (%s)" % (n, e, ["parsed", "written and re-read", "merged as override", "merged as base"][i])
         if f in ("cb", "ca"):
             for i, e in enumerate(exts):
                 if " %s %s" % (f, want[f]) not in e:
